@@ -50,8 +50,8 @@ ASSUMPTIONS = [
     "all transfer calls except the `slots` symbolic ones are unlimited; after the S scheduled steps both sides are serviced "
     "alternately for 8N+10+2*slots rounds (fair drain) before the oracle is evaluated",
     "store stamp is never advanced: connection timers (Valet 5 s, Client 1 s) never expire",
-    "all N requests are queued on the Patron before the first service call (Patron sends them one at a time); request k is a GET "
-    "for even k and a POST with a 9-byte body for odd k",
+    "all N requests are queued on the Patron before the first service call (Patron sends them one at a time); request k is a POST "
+    "with a 9-byte body for even k and a GET for odd k; each carries an application tag rid=k (not sent) that must come back with its response",
     "WSGI application double: response shape chosen by PATH_INFO; bodies echo the request index, method and request body",
     "a response is 'delimited' iff it has Content-Length or Transfer-Encoding: chunked (or is 204/304); close-delimited "
     "responses are counted as not delimited because they end the persistent connection",
@@ -124,7 +124,8 @@ def expectation(i, shape, method, reqbody):
 
 
 def request_of(k):
-    if k % 2 == 0:
+    # POST (with a body that must be consumed before the next request) first, GET second, POST third
+    if k % 2 == 1:
         return "GET", b""
     return "POST", b"payload-%d" % k
 
@@ -152,9 +153,16 @@ def check_wire(sym, total, shapes, reqs):
     sym.check(pos == len(total), "C31/wire/bytes-after-last-response", repr(bytes(total[pos:pos + 120])))
 
 
+def check_server_buffers(sym, valet):
+    """all request bytes were consumed: what is left would be parsed as (part of) the next request"""
+    for ix in valet.servant.ixes.values():
+        sym.check(len(ix.rxbs) == 0 and not ix.txes, "C31/server/bytes-left-after-last-request",
+                  "receive buffer %r, %d unsent items" % (bytes(ix.rxbs[:60]), len(ix.txes)))
+
+
 def snapshot(resp):
     return dict(status=resp["status"], body=bytes(resp["body"]), path=resp["request"]["path"],
-                method=resp["request"]["method"], errored=resp["errored"], obj=resp)
+                method=resp["request"]["method"], rid=resp["request"].get("rid"), errored=resp["errored"], obj=resp)
 
 
 def h(sym, shapes, steps, slots, maxcall, lmax, stride):
@@ -172,7 +180,7 @@ def _exchange(sym, shapes, whos, slots, policy):
     c2s, s2c = wire_pair(patron, valet, policy)
     reqs = [request_of(k) for k in range(n)]
     for k, (method, body) in enumerate(reqs):
-        patron.request(method=method, path="/r%d" % k, body=body if body else None)
+        patron.request(method=method, path="/r%d" % k, body=body if body else None, rid=k)   # rid: application's tag, not sent
 
     snaps = []
 
@@ -206,8 +214,9 @@ def _exchange(sym, shapes, whos, slots, policy):
     for i, s in enumerate(snaps):
         estatus, ebody = expectation(i, shapes[i], *reqs[i])
         sym.check(not s["errored"], "C31/client/response-errored", "response %d" % i)
-        sym.check(s["path"] == "/r%d" % i and s["method"] == reqs[i][0], "C31/client/response-matched-to-wrong-request",
-                  "response %d carries request %r %r" % (i, s["method"], s["path"]))
+        sym.check(s["path"] == "/r%d" % i and s["method"] == reqs[i][0] and s["rid"] == i,
+                  "C31/client/response-matched-to-wrong-request",
+                  "response %d carries request %r %r rid=%r" % (i, s["method"], s["path"], s["rid"]))
         sym.check(s["status"] == estatus and s["body"] == ebody, "C31/client/response-does-not-match-request",
                   "response %d: expected %r %r got %r %r" % (i, estatus, ebody, s["status"], s["body"]))
     # 4. connection still in use, nothing pending
@@ -215,6 +224,7 @@ def _exchange(sym, shapes, whos, slots, policy):
               "cutoff=%r ixes=%d" % (patron.connector.cutoff, len(valet.servant.ixes)))
     sym.check(not patron.waited and not patron.requests and len(patron.connector.rxbs) == 0 and not c2s.buf and not s2c.buf,
               "C31/client/not-idle-after-last-response", "waited=%r" % patron.waited)
+    check_server_buffers(sym, valet)
     # 5. delivered responses stay what they were
     for i, s in enumerate(snaps):
         sym.check(patron.responses[i] is s["obj"], "C31/client/response-queue-reordered", "%d" % i)
@@ -257,6 +267,7 @@ def _pipe(sym, shapes, cut, gap):
         valet.serviceAll()
     check_wire(sym, s2c.total, shapes, reqs)
     sym.check(len(valet.servant.ixes) == 1, "C31/connection-not-kept-alive", "ixes=%d" % len(valet.servant.ixes))
+    check_server_buffers(sym, valet)
     sym.cover("n-responses")
     return True
 
